@@ -874,7 +874,7 @@ class AbstractCircuit(abc.ABC):
 
         for i, moment in enumerate(self.moments):
             for op in moment.operations:
-                circuit = getattr(op.untagged, 'circuit', None)
+                circuit = _circuit_that_runs(op.untagged)
                 if circuit is None:
                     continue
                 if not circuit.are_all_matches_terminal(predicate):
@@ -919,7 +919,7 @@ class AbstractCircuit(abc.ABC):
 
         for i, moment in reversed(list(enumerate(self.moments))):
             for op in moment.operations:
-                circuit = getattr(op.untagged, 'circuit', None)
+                circuit = _circuit_that_runs(op.untagged)
                 if circuit is None:
                     continue
                 if not circuit.are_any_matches_terminal(predicate):
@@ -3155,6 +3155,19 @@ def get_earliest_accommodating_moment_index(
         ckey_indices[key] = max(mop_index, ckey_indices.get(key, -1))
 
     return mop_index
+
+
+def _circuit_that_runs(op: cirq.Operation) -> cirq.AbstractCircuit | None:
+    """The circuit a sub-circuit operation stands for: qubits mapped and repetitions unrolled."""
+    from cirq.circuits import CircuitOperation
+
+    if not isinstance(op, CircuitOperation):
+        return getattr(op, 'circuit', None)
+    try:
+        return op.mapped_circuit()
+    except ValueError:
+        # The number of repetitions is not known: two passes show what follows the body.
+        return op.replace(repetitions=2, repeat_until=None, repetition_ids=None).mapped_circuit()
 
 
 class _PlacementCache:
